@@ -30,11 +30,11 @@ class C17(Prop):
                 'empties, startTest pushes a copy, tags changes the top, stopTest pops but never the run level - D11), under which a '
                 'startTest..stopTest bracket restores the context; every wrapped result sees at each outcome exactly the reporter\'s current '
                 'tags (plus what Taggers above it add at startTest) through ThreadsafeForwardingResult (global/test buffers, _merge_tags lemma: '
-                'merging then applying = applying in sequence), MultiTestResult and the decorators, for all tag-well-formed histories incl. the '
+                'merging then applying = applying in sequence), MultiTestResult, the decorators and the stream pipeline ExtendedToStreamDecorator -> '
+                'StreamToExtendedDecorator -> PlaceHolder.run (also the test_tags of the final status events), for all tag-well-formed histories incl. the '
                 'startTest-less addSkip+stopTest pair.  The hand-written model is tied to the code by a differential check.',
-        'note': 'partial: the observed-tags theorem excludes (a) graphs with a Tagger below a ThreadsafeForwardingResult / stream pipeline '
-                '(known finding taggerBelowBuffer) and (b) the ExtendedToStreamDecorator->StreamToExtendedDecorator->PlaceHolder path, which is '
-                'modelled and checked by the correspondence only; trusted: Lean kernel, model TTV/Model/Result.lean, harness; tag sets as bit sets',
+        'note': 'partial: the observed-tags theorem excludes graphs with a Tagger below a ThreadsafeForwardingResult / stream pipeline '
+                '(known finding taggerBelowBuffer); of the stream pipeline only what PlaceHolder.run replays is modelled; trusted: Lean kernel, model TTV/Model/Result.lean, harness; tag sets as bit sets',
         'technique': 'Lean 4 proofs: refinement invariant over the adapter tree (state type computed from the shape) and the call history, '
                      'bit-vector extensionality for tag sets; executable spec shared with a differential correspondence check',
     }
